@@ -96,6 +96,11 @@ func (u *SPDX23) Unserialize(r io.Reader, _ *native.UnserializeOptions, _ interf
 		if r == nil {
 			continue
 		}
+		// TODO(degradation): NOASSERTION and NONE are not elements. The graph
+		// has no way to express them, an edge to an empty id would be broken.
+		if r.RefA.SpecialID != "" || r.RefB.SpecialID != "" {
+			continue
+		}
 		// The SPDX go library surfaces the JSON top-level elements as relationships:
 		if r.RefA.ElementRefID == "DOCUMENT" && strings.EqualFold(r.Relationship, "DESCRIBES") {
 			bom.NodeList.RootElements = append(bom.NodeList.RootElements, string(r.RefB.ElementRefID))
